@@ -7,6 +7,7 @@ their combination).  (Tree / route level theorems are added from `Proofs/SearchR
 -/
 import Compass.Proofs.Num
 import Compass.Model.Instance
+import Compass.Proofs.SearchRoute
 
 namespace Compass
 namespace C04
@@ -107,6 +108,29 @@ theorem combined_false_of_refusal (ms₁ ms₂ : List (FrontierM α)) (m : Front
     have ha := h₁ a (List.mem_cons_self ..)
     simp only [List.cons_append, frontierValid, ha]
     exact ih (fun m' hm' => h₁ m' (List.mem_cons_of_mem _ hm'))
+
+
+/-! ### Search level: what the search keeps was submitted to, and accepted by, the frontier model -/
+
+/-- Every entry of a returned tree (search with or without destination, any algorithm setting,
+any schedule, forward or reverse) records an edge that the frontier model accepted for the state
+and previous edge its parent carried when the entry was written, with the costs and state the
+traversal returned.  No hypothesis on the instance. -/
+theorem tree_edges_valid (I : Inst α) (source : Nat) (target : Option Nat) (sched : List Nat)
+    (s : SState α) (h : runAStar I source target sched = .ok s) :
+    ∀ v b, s.sol v = some b → ∃ (st : List α) (le : Option Nat),
+      I.valid b.edge st le = .ok true ∧ I.trav b.edge le st = .ok (b.access, b.traversal, b.state) :=
+  SearchRoute.runAStar_validInv I source target sched s h
+
+/-- For restrictions that depend only on the edge (road classes, vehicle restrictions, edge cuts and
+their combinations): no tree entry and no route edge is a forbidden edge. -/
+theorem route_edges_permitted (I : Inst α) (ok : Nat → Bool)
+    (hloc : ∀ e st le, I.valid e st le = .ok (ok e)) (source : Nat) (target : Option Nat)
+    (sched : List Nat) (res : SearchResult α)
+    (h : runVertexOriented I source target sched = .ok res) :
+    (∀ v b, res.final.sol v = some b → ok b.edge = true) ∧
+    (∀ route, res.route = some route → ∀ e ∈ route.map (·.edge), ok e = true) :=
+  SearchRoute.route_edges_ok hloc h
 
 /-! ### Non-vacuity -/
 example : (FrontierM.roadClass (α := ℚ) (some [1, 2]) [0, 2, 5]).valid 1 none = some true := by decide
